@@ -55,6 +55,8 @@ def run(ctx) -> None:
   ctx.rule('R3', 'created trials: id = max_trial_id()+1 read per create, name from the same id', 2)
   ctx.rule('R4', 'surplus algorithm output is stored as REQUESTED on every path to the final return', 1)
   ctx.rule('R5', 'pop() loops test their list for emptiness', 2)
+  ctx.rule('R7', 'SuggestTrials answers with the worker\'s pending operation or with the operation it created in this call, '
+           'never with a finished earlier one (its trials may meanwhile belong to someone else)', 2)
   ctx.import_rules('C07', {'R7', 'R8', 'R9'}, 'R6', 'fresh ids and sticky hand-out rest on the datastores: max_trial_id is a maximum, list_trials filters by exact study key')
   fi = svc.rpcs.get('SuggestTrials')
   if fi is None:
@@ -233,6 +235,7 @@ def run(ctx) -> None:
 
   # ------------------------------------------------------------------ R4, R5
   r45_handout(ctx, svc, fi, g, dom, prov, algo, out_lists)
+  r7_returned_operation(ctx, svc, fi, g, prov)
 
 
 def _len_of(e: ast.AST, names: Set[str]) -> bool:
@@ -256,6 +259,26 @@ def _bound_test(test: ast.AST, out_lists: Set[str]) -> bool:
       if dotted(r) == 'request.suggestion_count' and _len_of(l, out_lists) and isinstance(op, ast.Lt):
         return True
   return False
+
+
+def r7_returned_operation(ctx, svc, fi, g, prov) -> None:
+  rets = [n for n in g.nodes if n.kind == 'stmt' and isinstance(n.ast, ast.Return) and n.ast.value is not None]
+  if len(rets) < 2:
+    raise AnalysisError(f'SuggestTrials: only {len(rets)} value returns found')
+  for n in rets:
+    calls = [v for k, v in prov.origins(n.ast.value, n) if k == 'call']
+    names = []
+    for c in calls:
+      d = dotted(c.func) or ''
+      m = svc.ds_call(c)
+      names.append(m or d.rsplit('.', 1)[-1])
+    stored = [x for x in names if x.startswith(('get_', 'load_')) and x.endswith('operation')]
+    ok = not stored and any(x in ('Operation', 'list_suggestion_operations') for x in names)
+    ctx.check(ok, 'R7', f'SuggestTrials: operation returned at line {n.lineno}', where(fi, n),
+              'the pending operation of this worker (list_suggestion_operations, not done) or the operation created in this call',
+              f'returns an operation obtained from {sorted(set(stored)) or sorted(set(names))}: a finished earlier operation is replayed, although the '
+              'trials it lists may have been deleted and re-created for another worker since (same trial handed to two workers, nothing new created)',
+              construct='return:stored-operation', func=fi.qualname)
 
 
 def r45_handout(ctx, svc, fi, g, dom, prov, algo, out_lists) -> None:
